@@ -89,6 +89,31 @@ def run(rec):
                 if ok:
                     if True:
                         rec.check(np.allclose(mpsgen.dense_state(psi), exp.reshape(v.shape), atol=tol), 'apply_product_op:state', str(ops), dict(inp, ops=ops))
+                    # ... and the result is a proper MPS again: canonical, with the norm tracked in psi.norm (so that measurements
+                    # on the result are those of the normalised dense vector)
+                    rec.check(np.max(np.abs(psi.norm_test())) < 1e-7, 'apply_product_op:canonical-form', str(ops), dict(inp, ops=ops))
+                    rec.check(abs(psi.norm - np.linalg.norm(exp)) < 1e-8 * (1 + np.linalg.norm(exp)), 'apply_product_op:norm-not-tracked',
+                              f'psi.norm = {psi.norm}, |O psi| = {np.linalg.norm(exp)}', dict(inp, ops=ops))
+                # a unitary operator first (a phase gate exp(i a Sz)-like diagonal unitary = any diagonal operator exponentiated), non-unitary later:
+                # whether the product is unitary must be decided from all factors
+                import tenpy.linalg.np_conserved as npc_
+                diag = [n for n in sorted(sites[0].opnames) if not sites[0].op_needs_JW(n) and n != 'Id' and np.allclose(sites[0].get_op(n).to_ndarray(), np.diag(np.diag(sites[0].get_op(n).to_ndarray())))]
+                if diag and L >= 2:
+                    U0 = npc_.expm(1.j * sites[0].get_op(diag[0]))
+                    ops2 = [U0] + ops[1:]
+                    exp2 = v.reshape(-1).astype(complex)
+                    exp2 = np.kron(U0.to_ndarray(), np.eye(exp2.size // sites[0].dim)) @ exp2
+                    for i, n in enumerate(ops2):
+                        if i > 0:
+                            exp2 = mpsgen.op_dense(sites, [(n, i)]) @ exp2
+                    psi = psi0.copy()
+                    if np.linalg.norm(exp2) > 1e-10:
+                        ok, _ = rec.guarded('apply_product_op(unitary first):exception', lambda: psi.apply_product_op(ops2, renormalize=False), dict(inp, ops=ops[1:]))
+                        if ok:
+                            rec.check(np.allclose(mpsgen.dense_state(psi), exp2.reshape(v.shape), atol=tol), 'apply_product_op(unitary first):state', str(ops[1:]), dict(inp, ops=ops[1:]))
+                            rec.check(np.max(np.abs(psi.norm_test())) < 1e-7, 'apply_product_op(unitary first):canonical-form', str(ops[1:]), dict(inp, ops=ops[1:]))
+                            rec.check(abs(psi.norm - np.linalg.norm(exp2)) < 1e-8 * (1 + np.linalg.norm(exp2)), 'apply_product_op(unitary first):norm-not-tracked',
+                                      f'psi.norm = {psi.norm}, |O psi| = {np.linalg.norm(exp2)}', dict(inp, ops=ops[1:]))
                 # ---- swap / permute
                 if L >= 2:
                     i = int(rng.integers(0, L - 1))
